@@ -190,6 +190,9 @@ VM_SPECS = r"""
     // the real body indexes `self.registers[register_base + register]`
     #[verifier::external_body]
     fn set_register(&mut self, register: u8, value: KValue)
+        // the registers announced by the frame's NewFrame instruction exist whenever a register of
+        // the frame is written (the real body indexes self.registers and panics otherwise)
+        requires old(self).registers@.len() >= old(self).min_frame_registers,
         ensures final(self).registers@.len() == old(self).registers@.len(),
                 final(self).cur_chunk() == old(self).cur_chunk(),
                 final(self).same_but_registers(old(self)),
@@ -364,6 +367,7 @@ VM_SPECS = r"""
         &&& f.wf()
         &&& f.execution_state == o.execution_state
         &&& f.registers@.len() >= o.registers@.len()
+        &&& (o.registers@.len() >= o.min_frame_registers ==> f.registers@.len() >= f.min_frame_registers)
         &&& f.registers@.len() < 0x4000_0000_0000_0000
         &&& (forall|i: int| 0 <= i < n - 1 ==> #[trigger] f.call_stack@[i] == o.call_stack@[i])
         &&& (n > 0 ==> f.call_stack@.len() >= n && Self::frame_equiv(f.call_stack@[n - 1], o.call_stack@[n - 1]))
@@ -859,6 +863,7 @@ UNIT = Unit(
         old(self).wf(),
         old(self).registers@.len() - old(self).register_base + 3 <= 255,
         old(self).registers@.len() < 0x3000_0000_0000_0000,
+        old(self).registers@.len() >= old(self).min_frame_registers,         // the current frame's registers exist (NewFrame)
     ensures
         // C07: on EVERY exit path no frame, register or base is left behind
         final(self).wf(),                                       // @wf_on_every_exit
@@ -871,7 +876,8 @@ UNIT = Unit(
     requires
         old(self).wf(),
         old(self).registers@.len() - old(self).register_base + 3 <= 255,    // the operation's registers fit the u8 window
-        old(self).registers@.len() < 0x3000_0000_0000_0000,                  // memory bound (assumption)
+        old(self).registers@.len() < 0x3000_0000_0000_0000,
+        old(self).registers@.len() >= old(self).min_frame_registers,         // the current frame's registers exist (NewFrame)                  // memory bound (assumption)
     ensures
         final(self).wf(),                                       // @wf_on_every_exit
         !(final(self).execution_state is Suspended) ==> final(self).call_stack@.len() == old(self).call_stack@.len(),   // @no_frame_left_behind
@@ -887,6 +893,7 @@ UNIT = Unit(
         old(self).wf(),
         old(self).registers@.len() - old(self).register_base + 2 <= 255,
         old(self).registers@.len() < 0x3000_0000_0000_0000,
+        old(self).registers@.len() >= old(self).min_frame_registers,         // the current frame's registers exist (NewFrame)
     ensures
         // C07: on EVERY exit path no frame, register or base is left behind
         final(self).wf(),                                       // @wf_on_every_exit
@@ -902,7 +909,8 @@ UNIT = Unit(
     requires
         old(self).wf(),
         old(self).registers@.len() - old(self).register_base + 2 <= 255,    // the operation's registers fit the u8 window
-        old(self).registers@.len() < 0x3000_0000_0000_0000,                  // memory bound (assumption)
+        old(self).registers@.len() < 0x3000_0000_0000_0000,
+        old(self).registers@.len() >= old(self).min_frame_registers,         // the current frame's registers exist (NewFrame)                  // memory bound (assumption)
     ensures
         final(self).wf(),                                       // @wf_on_every_exit
         !(final(self).execution_state is Suspended) ==> final(self).call_stack@.len() == old(self).call_stack@.len(),   // @no_frame_left_behind
@@ -918,6 +926,7 @@ UNIT = Unit(
         old(self).wf(),
         old(self).registers@.len() - old(self).register_base + 3 <= 255,
         old(self).registers@.len() < 0x3000_0000_0000_0000,
+        old(self).registers@.len() >= old(self).min_frame_registers,         // the current frame's registers exist (NewFrame)
     ensures
         // C07: on EVERY exit path no frame, register or base is left behind
         final(self).wf(),                                       // @wf_on_every_exit
@@ -930,7 +939,8 @@ UNIT = Unit(
     requires
         old(self).wf(),
         old(self).registers@.len() - old(self).register_base + 3 <= 255,    // the operation's registers fit the u8 window
-        old(self).registers@.len() < 0x3000_0000_0000_0000,                  // memory bound (assumption)
+        old(self).registers@.len() < 0x3000_0000_0000_0000,
+        old(self).registers@.len() >= old(self).min_frame_registers,         // the current frame's registers exist (NewFrame)                  // memory bound (assumption)
     ensures
         final(self).wf(),                                       // @wf_on_every_exit
         !(final(self).execution_state is Suspended) ==> final(self).call_stack@.len() == old(self).call_stack@.len(),   // @no_frame_left_behind
@@ -946,6 +956,7 @@ UNIT = Unit(
         old(self).wf(),
         old(self).registers@.len() - old(self).register_base + 4 <= 255,
         old(self).registers@.len() < 0x3000_0000_0000_0000,
+        old(self).registers@.len() >= old(self).min_frame_registers,         // the current frame's registers exist (NewFrame)
     ensures
         // C07: on EVERY exit path no frame, register or base is left behind
         final(self).wf(),                                       // @wf_on_every_exit
@@ -958,7 +969,8 @@ UNIT = Unit(
     requires
         old(self).wf(),
         old(self).registers@.len() - old(self).register_base + 4 <= 255,    // the operation's registers fit the u8 window
-        old(self).registers@.len() < 0x3000_0000_0000_0000,                  // memory bound (assumption)
+        old(self).registers@.len() < 0x3000_0000_0000_0000,
+        old(self).registers@.len() >= old(self).min_frame_registers,         // the current frame's registers exist (NewFrame)                  // memory bound (assumption)
     ensures
         final(self).wf(),                                       // @wf_on_every_exit
         !(final(self).execution_state is Suspended) ==> final(self).call_stack@.len() == old(self).call_stack@.len(),   // @no_frame_left_behind
@@ -1022,6 +1034,7 @@ UNIT = Unit(
                   ("let list = KList::with_data(ValueVec::from_vec(result));", "let list = list_value_from(result);", 1),
                   ("list.into()", "list", 1)],
            spec=r"""
+    requires old(self).registers@.len() >= old(self).min_frame_registers,    // the frame's registers exist while it executes (NewFrame)
     ensures
         // finishing a sequence consumes EXACTLY the innermost builder and stores its contents
         r is Ok <==> old(self).sequence_builders@.len() > 0,                                             // @missing_builder_is_error
@@ -1034,6 +1047,7 @@ UNIT = Unit(
            subst=[("runtime_error!(ErrorKind::MissingSequenceBuilder)", "error_missing_builder()", 1),
                   ("KTuple::from(result).into()", "tuple_value_from(result)", 1)],
            spec=r"""
+    requires old(self).registers@.len() >= old(self).min_frame_registers,    // the frame's registers exist while it executes (NewFrame)
     ensures
         r is Ok <==> old(self).sequence_builders@.len() > 0,                                             // @missing_builder_is_error
         r is Ok ==> final(self).sequence_builders@ == old(self).sequence_builders@.drop_last(),          // @pops_exactly_the_innermost_builder
@@ -1045,6 +1059,7 @@ UNIT = Unit(
            subst=[("runtime_error!(ErrorKind::MissingStringBuilder)", "error_missing_builder()", 1),
                   ("result.into()", "string_value_from(result)", 1)],
            spec=r"""
+    requires old(self).registers@.len() >= old(self).min_frame_registers,    // the frame's registers exist while it executes (NewFrame)
     ensures
         r is Ok <==> old(self).string_builders@.len() > 0,                                               // @missing_builder_is_error
         r is Ok ==> final(self).string_builders@ == old(self).string_builders@.drop_last(),              // @pops_exactly_the_innermost_builder
